@@ -53,7 +53,7 @@ def run(rep, rng, tier, replay=None):
         E, D, L = n_["E"], n_["D"], n_["L"]
         if "ext_mom" not in c or E > 7:
             continue
-        if not all(math.isfinite(b2f(v)) and b2f(v) > 0 for v in fi["x"] + [fi["u"], fi["v"], fi["jacobian"]]):
+        if not all(math.isfinite(b2f(v)) and b2f(v) > 0 for v in fi["x"]):
             skipped += 1          # parameters over/underflowed: f64 range, not the bound, is exceeded
             continue
         x = [Fr(b2f(v)) for v in fi["x"]]
@@ -66,6 +66,10 @@ def run(rep, rng, tier, replay=None):
         if not coef or ratio is None or ratio > Fr(10) ** 8 or Vx <= 0:
             skipped += 1
             continue
+        kapL = X.cond_estimate(Lm)
+        if kapL is None or ratio * kapL > Fr(10) ** 8:
+            skipped += 1          # V = sum x(m^2+p^2) - u^T L^-1 u is conditioned by kappa(L) x cancellation: beyond 1e8 the property does not quantify
+            continue
         cmin, csum = min(coef.values()), sum(coef.values())
 
         def mono_val(mono):
@@ -76,6 +80,12 @@ def run(rep, rng, tier, replay=None):
         Utr = max(mono_val(tuple(0 if e in T else 1 for e in range(E))) for T in trees)
         Ftr = max(mono_val(mn) for mn in coef)
         Vtr = Ftr / Utr
+        if not all(math.isfinite(b2f(t)) and b2f(t) > 0 for t in [fi["u"], fi["v"], fi["jacobian"]]):
+            # the parameters are finite and positive and the exact V is well conditioned: U, V and the weight must be positive numbers
+            rep.violation("property", "returned u = %r, v = %r, jacobian = %r are not all finite and positive although U_tr = %r, V_tr = %r, exact V = %r (cancellation %.3g)" % (
+                b2f(fi["u"]), b2f(fi["v"]), b2f(fi["jacobian"]), float(Utr), float(Vtr), float(Vx), float(ratio)), case=c, failing_input=True,
+                what="Symanzik/tropical bounds violated (non-positive or non-finite value)")
+            continue
         u, v = Fr(b2f(fi["u"])), Fr(b2f(fi["v"]))
         slack = Fr(1) + Fr(1, 10**9) * max(Fr(1), ratio)
         bad = []
